@@ -26,6 +26,10 @@ fn main() {
         std::process::exit(2);
     }
     pipe::install_quiet_panic_hook();
+    if args[1] == "c10-worker" {
+        props::c10::worker_main(&args[2..]);
+        return;
+    }
     if args[1] == "c06-worker" {
         props::c06::worker_main(&args[2], &args[3]);
         return;
@@ -54,6 +58,7 @@ fn main() {
         "C06" => props::c06::run(tier),
         "C08" => props::c08::run(tier),
         "C09" => props::c09::run(tier),
+        "C10" => props::c10::run(tier),
         "C11" => props::c11::run(tier),
         "C12" => props::c12::run(tier),
         "C13" => props::c13::run(tier),
